@@ -25,6 +25,8 @@ pub(crate) fn local_channel<T: ExchangeData>(
         NetworkReceiver {
             receiver_endpoint,
             receiver,
+            #[cfg(feature = "verif")]
+            verif_hash: crate::verif::payload_hash::<T>,
         },
     )
 }
@@ -56,6 +58,10 @@ pub(crate) struct NetworkReceiver<In: Send + 'static> {
     /// The actual receiver where the users of this struct will wait upon.
     #[derivative(Debug = "ignore")]
     receiver: Receiver<NetworkMessage<In>>,
+    /// Digest function of the payload, for the verification hooks.
+    #[cfg(feature = "verif")]
+    #[derivative(Debug = "ignore")]
+    verif_hash: crate::verif::PayloadHashFn<In>,
 }
 
 impl<In: Send + 'static> NetworkReceiver<In> {
@@ -64,6 +70,8 @@ impl<In: Send + 'static> NetworkReceiver<In> {
         &self,
         message: Result<NetworkMessage<In>, E>,
     ) -> Result<NetworkMessage<In>, E> {
+        #[cfg(feature = "verif")]
+        self.verif_received(message.as_ref().ok());
         message.map(|message| {
             get_profiler().items_in(
                 message.sender,
@@ -74,18 +82,69 @@ impl<In: Send + 'static> NetworkReceiver<In> {
         })
     }
 
+    /// Report the outcome of a receive to the verification observer.
+    #[cfg(feature = "verif")]
+    fn verif_received(&self, message: Option<&NetworkMessage<In>>) {
+        use crate::verif::{emit, enabled, BatchRef, Event};
+        if !enabled() {
+            return;
+        }
+        match message {
+            Some(message) => emit(&Event::Recv {
+                at: self.receiver_endpoint,
+                batch: &BatchRef {
+                    message,
+                    hash: self.verif_hash,
+                },
+            }),
+            None => emit(&Event::RecvNone {
+                at: self.receiver_endpoint,
+            }),
+        }
+    }
+
+    /// Report the start of a receive to the verification observer.
+    #[cfg(feature = "verif")]
+    fn verif_recv_enter(&self, other: Option<crate::network::ReceiverEndpoint>, blocking: bool) {
+        crate::verif::emit(&crate::verif::Event::RecvEnter {
+            at: self.receiver_endpoint,
+            other,
+            blocking,
+        });
+    }
+
+    /// Report the outcome of a select to the verification observer.
+    #[cfg(feature = "verif")]
+    fn verif_selected<In2: ExchangeData>(
+        &self,
+        other: &NetworkReceiver<In2>,
+        result: Option<&SelectResult<NetworkMessage<In>, NetworkMessage<In2>>>,
+    ) {
+        match result {
+            Some(SelectResult::A(a)) => self.verif_received(a.as_ref().ok()),
+            Some(SelectResult::B(b)) => other.verif_received(b.as_ref().ok()),
+            None => self.verif_received(None),
+        }
+    }
+
     /// Receive a message from any sender.
     pub fn recv(&self) -> Result<NetworkMessage<In>, RecvError> {
+        #[cfg(feature = "verif")]
+        self.verif_recv_enter(None, true);
         self.profile_message(self.receiver.recv())
     }
 
     /// Receive a message from any sender without blocking.
     pub fn try_recv(&self) -> Result<NetworkMessage<In>, TryRecvError> {
+        #[cfg(feature = "verif")]
+        self.verif_recv_enter(None, false);
         self.profile_message(self.receiver.try_recv())
     }
 
     /// Receive a message from any sender with a timeout.
     pub fn recv_timeout(&self, timeout: Duration) -> Result<NetworkMessage<In>, RecvTimeoutError> {
+        #[cfg(feature = "verif")]
+        self.verif_recv_enter(None, false);
         self.profile_message(self.receiver.recv_timeout(timeout))
     }
 
@@ -98,6 +157,14 @@ impl<In: Send + 'static> NetworkReceiver<In> {
         &self,
         other: &NetworkReceiver<In2>,
     ) -> SelectResult<NetworkMessage<In>, NetworkMessage<In2>> {
+        #[cfg(feature = "verif")]
+        {
+            self.verif_recv_enter(Some(other.receiver_endpoint), true);
+            let result = self.receiver.select(&other.receiver);
+            self.verif_selected(other, Some(&result));
+            return result;
+        }
+        #[cfg(not(feature = "verif"))]
         self.receiver.select(&other.receiver)
     }
 
@@ -107,6 +174,14 @@ impl<In: Send + 'static> NetworkReceiver<In> {
         other: &NetworkReceiver<In2>,
         timeout: Duration,
     ) -> Result<SelectResult<NetworkMessage<In>, NetworkMessage<In2>>, RecvTimeoutError> {
+        #[cfg(feature = "verif")]
+        {
+            self.verif_recv_enter(Some(other.receiver_endpoint), false);
+            let result = self.receiver.select_timeout(&other.receiver, timeout);
+            self.verif_selected(other, result.as_ref().ok());
+            return result;
+        }
+        #[cfg(not(feature = "verif"))]
         self.receiver.select_timeout(&other.receiver, timeout)
     }
 }
@@ -134,6 +209,24 @@ enum SenderInner<Out: Send + 'static> {
 
 impl<Out: ExchangeData> NetworkSender<Out> {
     pub fn send(&self, message: NetworkMessage<Out>) -> Result<(), NetworkSendError> {
+        #[cfg(feature = "verif")]
+        let _verif_guard = {
+            use crate::verif::{emit, enabled, BatchRef, Event, SendGuard};
+            if enabled() {
+                emit(&Event::SendEnter {
+                    from: message.sender,
+                    to: self.receiver_endpoint,
+                    remote: matches!(self.sender, SenderInner::Mux(_)),
+                    batch: &BatchRef {
+                        message: &message,
+                        hash: crate::verif::payload_hash::<Out>,
+                    },
+                });
+                SendGuard(Some(self.receiver_endpoint))
+            } else {
+                SendGuard(None)
+            }
+        };
         get_profiler().items_out(
             message.sender,
             self.receiver_endpoint.coord,
